@@ -884,9 +884,9 @@ func main() {
 	writeByteCases(res, a.Out, kByteCases(root, res, nb, 120000), 16)
 	// (K) the composed Open on whole crash images (every file as bytes): Store/OpenPath.v open_bytes
 	{
-		no := 24
+		no := 96
 		if a.Thorough() {
-			no = 160
+			no = 800
 		}
 		writeOpenCases(res, a.Out, kOpenCases(vlib.NewRNG(a.Seed^0x6f70656e), res, no, 30000, 140000), 16)
 	}
